@@ -54,7 +54,11 @@ def _finish(prop, tier, t0, sums, vios, msums, mvios, mstats, rule, extra_assume
     rc = 0
     for k, info in sorted(known.items()):
         print(f"KNOWN-FINDING: property={prop} {info['entry']['what']} (seen {info['count']}x)")
-    for v in new:
+    # every class costs a replay in a fresh process (minutes under Miri): the first eight are verified
+    # and reported, the rest is listed
+    for v in new[8:]:
+        print(f"  further class (not replayed): {v['key']}")
+    for v in new[:8]:
         v = dict(v)
         v["property"] = prop
         path = H.write_replay(prop, v)
